@@ -72,7 +72,23 @@ def sbml_view(model):
     return v
 
 
-def check_case(d, transport, f_replace, tmpdir):
+def check_case(d, transport, f_replace, tmpdir, cfg=None):
+    import cobra
+
+    conf = cobra.Configuration()
+    old = conf.bounds
+    try:
+        if cfg is not None:
+            conf.bounds = tuple(cfg)
+            if d.get("bounds") == "config_default":
+                d = dict(d)
+                d["bounds"] = tuple(cfg)
+        return _check_case(d, transport, f_replace, tmpdir)
+    finally:
+        conf.bounds = old
+
+
+def _check_case(d, transport, f_replace, tmpdir):
     import cobra.io as cio
 
     problems = []
@@ -367,9 +383,16 @@ def run_task(payload):
                     violations.append(({"source": "third_party", "features": "+".join(item[1]), "problem": kind},
                                        {"third": list(item[1])}, f"{item[1]}\n{kind}\n{detail}"))
                 continue
-            d, transport, f_replace = item
+            d, transport, f_replace = item[:3]
+            cfg = item[3] if len(item) > 3 else None
             d = {k: (tuple(v) if isinstance(v, list) else v) for k, v in d.items()}
-            probs = check_case(d, transport, f_replace, tmpdir)
+            probs = check_case(d, transport, f_replace, tmpdir, cfg)
+            if cfg is not None:
+                for kind, detail in probs:
+                    violations.append(({"source": "family", "problem": kind, "features": "config_bounds"},
+                                       {"features": _jl(d), "transport": transport, "f_replace": f_replace, "config": list(cfg)},
+                                       f"{kind}\nConfiguration().bounds = {cfg}; features {iomodels.describe(d)}\n{detail}"))
+                continue
             off = iomodels.describe(d)
             if probs and len(off) > 1:
                 # interactions are only judged when every feature alone round-trips cleanly (a failing single
@@ -414,6 +437,9 @@ def replay(case):
             return [{"sig": {"source": "third_party", "features": "+".join(case["third"]), "problem": k}, "detail": d}
                     for k, d in probs]
         d = _ju(case["features"])
+        if case.get("config"):
+            probs = check_case(d, case["transport"], case["f_replace"], tmpdir, tuple(case["config"]))
+            return [{"sig": {"source": "family", "problem": k, "features": "config_bounds"}, "detail": dd} for k, dd in probs]
         probs = check_case(d, case["transport"], case["f_replace"], tmpdir)
         return [{"sig": sig_of(d, case["transport"], case["f_replace"], k), "detail": dd} for k, dd in probs]
 
@@ -436,6 +462,13 @@ def explore(ctx):
         for d in iomodels.feature_product(3, only=("bounds", "objective", "rule", "groups", "annotation", "names")):
             if len(iomodels.describe(d)) == 3:
                 cases.append((d, "string", "default"))
+    for cfg in ((-50, 50), (-500, 500), (-1e6, 1e6)):
+        for b in ("config_default", (0, 1000), (-1000, 1000), (0, cfg[1]), (cfg[0], 0)):
+            for obj in ("one", "min"):
+                dd = dict(iomodels.DEFAULT)
+                dd["bounds"] = b
+                dd["objective"] = obj
+                cases.append((dd, "path", "default", cfg))
     files = [("file", f) for f in sbml_files()]
     third = [("third", (f,)) for f in THIRD_PARTY] + [("third", p) for p in itertools.combinations(THIRD_PARTY, 2)]
     off = ctx.seed % len(cases)
